@@ -1148,11 +1148,11 @@ class ModelBuilder:
                         existing_deps = target_task.get("depends", scIdx) or []
                         if not isinstance(existing_deps, list):
                             existing_deps = [existing_deps] if existing_deps else []
-                        # Check if source_task is already in dependencies
+                        # Check if the same plain dependency on source_task is already there
+                        # (one with options, e.g. onstart, is a different constraint)
                         already_exists = False
                         for dep in existing_deps:
-                            dep_task = dep.get("task") if isinstance(dep, dict) else dep
-                            if dep_task is source_task:
+                            if dep is source_task:
                                 already_exists = True
                                 break
                         if not already_exists or isinstance(new_dep, dict):
